@@ -186,6 +186,12 @@ def check_delimited(case):
         raise Failure('raised:%s' % w.cls, 'export raised %r' % w.exc, w.where)
     text = buf.getvalue()
     kw = dict(index_depth=case['idepth'] if inc_i else 0, columns_depth=case['cdepth'] if inc_c else 0, **sfl, **qkw)
+    # reader options without effect on the content: the name given to the Frame, merging of equal-typed neighbouring blocks
+    ropt = (n * 7 + m * 3 + len(text)) % 4
+    if ropt in (1, 3):
+        kw['name'] = 'rn'
+    if ropt in (2, 3):
+        kw['consolidate_blocks'] = True
     via = case.get('via', 'stringio')
     tmpdir = None
     if via == 'path':
@@ -212,6 +218,8 @@ def check_delimited(case):
         raise Failure('raised:%s' % r.cls, 'import of %r raised %r' % (text[:300], r.exc), r.where)
     want_il = [canon(x) for x in il] if inc_i else list(range(n))
     want_cl = [canon(x) for x in cl] if inc_c else list(range(m))
+    if obs.canon_name(r.name) != obs.canon_name(kw.get('name')):
+        raise Failure('name', 'import with name=%r returned a Frame named %r' % (kw.get('name'), r.name))
     try:
         obs.LOOSE_MISSING[0] = True
         obs.expect_frame(r, want_il, want_cl, [arr_list(c) for c in cols], 'round trip')
